@@ -139,7 +139,13 @@ def cases(draw, nmax):
         s = draw(gens.series(n=n))
         y, ycls = s["y"], s["cls"]
     loglam = None
-    if n >= 12 and draw(st.integers(0, 7)) == 0:
+    if draw(st.integers(0, 7)) == 0:
+        n = draw(st.integers(40, max(40, min(nmax, 100))))   # long enough for the run to matter
+        if ycls != "dyadic":
+            s = draw(gens.series(n=n))
+            y, ycls = s["y"], s["cls"]
+        else:
+            y = draw(st.lists(_DYADIC, min_size=n, max_size=n))
         # interpolation regime: one long zero-weight run at an end (or inside) with a small lambda - the last pivots of the
         # factorisation become as small as ~3 lambda / L^3
         run = draw(st.integers(n // 2, n - 3))
@@ -149,7 +155,7 @@ def cases(draw, nmax):
         if sum(valid) < 2:
             valid[0] = valid[1] = True
         g = {"gcls": "long_" + where, "valid": valid}
-        loglam = draw(st.floats(-6.0, -3.0))
+        loglam = draw(st.one_of(st.floats(-6.0, -3.0), st.floats(-6.0, -5.0), st.just(-6.0)))
     else:
         g = draw(gens.gap_mask(n, min_valid=2))
     w = [1.0 if v else 0.0 for v in g["valid"]]
